@@ -92,6 +92,64 @@ pub fn search_roots(seed: u64, n: usize, h: &ZobristHasher, swings: bool) -> Vec
     out
 }
 
+/// Roots right behind a repetition: a sparse position with clearly unbalanced material occurred
+/// twice (one shuffle cycle), then one or two more reversible plies were played. Inside a
+/// depth-3 tree the line "move, take-back, move back" then reaches the twice-seen position a
+/// third time, so a repetition draw (0) sits next to values far from 0 - the place where the
+/// window handed to a sub-search, the re-search test and the value a node returns must agree.
+pub fn repetition_edge_roots(seed: u64, n: usize, h: &ZobristHasher) -> Vec<Root> {
+    let mut rng = Rng::stream(seed, 0x9E9E7);
+    let mut out = Vec::new();
+    let mats: &[(&[Kind], &[Kind])] = &[
+        (&[Kind::Queen], &[]), (&[Kind::Rook], &[]), (&[Kind::Queen], &[Kind::Knight]), (&[Kind::Rook, Kind::Bishop], &[Kind::Knight]),
+        (&[Kind::Queen, Kind::Pawn], &[Kind::Rook]), (&[Kind::Rook, Kind::Rook], &[Kind::Bishop, Kind::Pawn]), (&[Kind::Queen, Kind::Knight], &[Kind::Pawn, Kind::Pawn]),
+        (&[Kind::Rook, Kind::Knight, Kind::Pawn], &[Kind::Bishop]), (&[Kind::Queen, Kind::Rook], &[Kind::Queen]), (&[Kind::Bishop, Kind::Knight, Kind::Pawn, Kind::Pawn], &[Kind::Pawn]),
+    ];
+    let mut tries = 0;
+    while out.len() < n && tries < n * 60 {
+        tries += 1;
+        let (a, b) = mats[rng.below(mats.len() as u64) as usize];
+        let (w, bl) = if rng.chance(1, 2) { (a, b) } else { (b, a) };
+        let stm = if rng.chance(1, 2) { Color::White } else { Color::Black };
+        let q = match super::c11::material_position(&mut rng, w, bl, stm) {
+            Some(p) => p,
+            None => continue,
+        };
+        if in_check(&q, q.stm) {
+            continue;
+        }
+        let cyc = match find_cycle(&q, &mut rng) {
+            Some(c) => c,
+            None => continue,
+        };
+        let mut moves: Vec<Mv> = cyc.to_vec();
+        let mut p = q.clone();
+        for m in &moves {
+            p = apply(&p, *m);
+        }
+        // one or two more reversible plies (no pawn move, no capture, no castling)
+        let extra = 1 + rng.below(2) as usize;
+        let mut ok = true;
+        for _ in 0..extra {
+            let ms: Vec<Mv> = legal_moves(&p).into_iter().filter(|m| !is_capture(&p, *m) && !matches!(p.sq[m.from as usize], Some((_, Kind::Pawn)))).collect();
+            if ms.is_empty() {
+                ok = false;
+                break;
+            }
+            let m = *rng.pick(&ms);
+            moves.push(m);
+            p = apply(&p, m);
+        }
+        if !ok || !has_legal_move(&p) || !is_legal_position(&p) {
+            continue;
+        }
+        if let Ok(r) = make_root(History { start: q, moves, end: p }, h) {
+            out.push(r);
+        }
+    }
+    out
+}
+
 /// Roots with exactly one or two legal moves: sparse endings in check, rich positions in check
 /// with a single reply (the forced-reply shapes of C10), near-stalemates.
 pub fn few_move_roots(seed: u64, n: usize, h: &ZobristHasher) -> Vec<Root> {
@@ -533,7 +591,7 @@ pub fn run_c07(tier: Tier, seed: u64) -> i32 {
 
 pub fn run_c12(tier: Tier, seed: u64) -> i32 {
     let mut run = Run::new("C12", tier, seed, "exploration");
-    run.rule = "evaluation = one (root, depth d in 1..3) comparison: the score on the last info line of iteration d of the real search (virtual clock: iterations 1..3 complete, iteration 4 never starts) against the exact minimax value computed by a heuristic-free fail-soft alpha-beta over the engine's own generate_moves/get_evaluation/is_check/DrawTable (check extension, capture quiescence, mate and repetition scoring as the only leaf rules), plus the reference value of the move standing as best when depth d completed. Roots: library, opening walks, synthesised positions, each with and without a game history in the repetition record. Non-trivial = every compared (root,d); distinct by (position command, d)".into();
+    run.rule = "evaluation = one (root, depth d in 1..3) comparison: the score on the last info line of iteration d of the real search (virtual clock: iterations 1..3 complete, iteration 4 never starts) against the exact minimax value computed by a heuristic-free fail-soft alpha-beta over the engine's own generate_moves/get_evaluation/is_check/DrawTable (check extension, capture quiescence, mate and repetition scoring as the only leaf rules), plus the reference value of the move standing as best when depth d completed. Roots: library, opening walks, synthesised positions, each with and without a game history in the repetition record; plus thousands of sparse roots with unbalanced material one or two reversible plies after a position that occurred twice (a repetition draw next to values far from zero inside the depth-3 tree). Non-trivial = every compared (root,d); distinct by (position command, d)".into();
     run.assumptions = vec![
         "alpha-beta with a full root window returns the exact minimax value (theorem); the reference is cross-checked in every run against an un-pruned minimax on small trees".into(),
         "score mate N is compared through the set of internal values that print as N".into(),
@@ -546,6 +604,17 @@ pub fn run_c12(tier: Tier, seed: u64) -> i32 {
     let results = par::par_map(roots.len(), |j| {
         let mut acc = Acc::new();
         c12_check_root(&roots[j], &h, budget, j < 2, &mut acc);
+        acc
+    });
+    for a in results {
+        run.acc.merge(a, &[]);
+    }
+    // right behind a repetition, unbalanced sparse material: cheap trees, many of them
+    let edge = repetition_edge_roots(seed, tier.pick(6000usize, 60000), &h);
+    let results = par::par_map(edge.len(), |j| {
+        let mut acc = Acc::new();
+        c12_check_root(&edge[j], &h, budget, false, &mut acc);
+        acc.feature("root_one_or_two_reversible_plies_after_a_position_seen_twice");
         acc
     });
     for a in results {
